@@ -18,10 +18,19 @@ Open Scope Z_scope.
 
 Record bind_case := mkBindCase {
   bc_eps : Z; bc_nodes : list node_spec; bc_jobs : list job_spec; bc_tasks : list task_spec;
-  bc_workers : Z; bc_exact : bool; bc_calls : list bind_req }.
+  bc_workers : Z; bc_exact : bool; bc_calls : list cache_op }.
 
-Definition dBindReq : dec bind_req :=
-  let* j := dPos in let* t := dPos in let* n := dPos in ret (mkBind j t n false).
+(* an item of the history: 0 = AddBindTask call, 1-4 = cache events delivered in between *)
+Definition dBindReq : dec cache_op :=
+  let* k := dZ in
+  match k with
+  | 0 => let* j := dPos in let* t := dPos in let* n := dPos in ret (OpBind (mkBind j t n false))
+  | 1 => let* n := dNodeSpec in ret (OpEv (EvNode (ns_id n) (mk_alloc (ns_cpu n) (ns_mem n) (ns_pods n) (ns_gpu n))))
+  | 2 => let* t := dPos in ret (OpEv (EvTerminating t))
+  | 3 => let* t := dPos in ret (OpEv (EvDelete t))
+  | 4 => let* e := dZ in let* t := dTaskSpec in ret (OpEv (EvPodAdd (task_of_spec e t)))
+  | _ => fail
+  end.
 
 Definition dBindCase : dec bind_case :=
   let* e := dZ in let* ns := dList dNodeSpec in let* js := dList dJobSpec in let* ts := dList dTaskSpec in
@@ -42,8 +51,8 @@ Definition eBindRes (exact : bool) (r : bind_res) : list Z :=
 
 Definition run_bind (b : bind_case) : list Z :=
   let c := cache_of b in
-  let c' := bind_state (bc_eps b) c (bc_calls b) in
-  eList (eBindRes (bc_exact b)) (bind_results (bc_eps b) c (bc_calls b)) ++ [-110] ++
+  let c' := ops_state (bc_eps b) c (bc_calls b) in
+  eList (fun r => match r with Some x => eBindRes (bc_exact b) x | None => [9] end) (ops_results (bc_eps b) c (bc_calls b)) ++ [-110] ++
   eList (fun kv => eTaskBrief (snd kv)) (sort_kv (map_to_list (c_heap c'))) ++ [-111] ++
   eList (fun kv => eJob (snd kv)) (sort_kv (map_to_list (c_jobs c'))) ++ [-112] ++
   eList (fun kv => eNode (snd kv)) (sort_kv (map_to_list (c_nodes c'))).
@@ -51,12 +60,21 @@ Definition run_bind (b : bind_case) : list Z :=
 (* agent scheduler: the request carries the worker's own task object (here: the spec's task) *)
 Definition run_agent (b : bind_case) : list Z :=
   let c := cache_of b in
-  let reqs := omap (fun r => match c_heap c !! b_task r with Some t => Some (t, b_node r) | None => None end) (bc_calls b) in
-  let step (acc : gmap positive node * list Z) (r : task * positive) :=
+  (* what the informer knows of each pod: the spec's pods and the pods that arrive as events *)
+  let known : gmap positive task :=
+    fold_left (fun m o => match o with OpEv (EvPodAdd t) => <[t_id t := t]> m | _ => m end) (bc_calls b) (c_heap c) in
+  let step (acc : gmap positive node * list Z) (o : cache_op) :=
     let '(ns, out) := acc in
-    let '(ns', o) := agent_add_bind_task (bc_eps b) ns (fst r) (snd r) in (ns', out ++ eBindRes (bc_exact b) o) in
-  let '(ns', out) := fold_left step reqs (c_nodes c, []) in
-  Z.of_nat (length reqs) :: out ++ [-112] ++ eList (fun kv => eNode (snd kv)) (sort_kv (map_to_list ns')).
+    match o with
+    | OpBind r =>
+      match known !! b_task r with
+      | Some t => let '(ns', x) := agent_add_bind_task (bc_eps b) ns t (b_node r) in (ns', out ++ eBindRes (bc_exact b) x)
+      | None => (ns, out ++ [8])
+      end
+    | OpEv e => (agent_event (bc_eps b) (fun i => known !! i) ns e, out ++ [9])
+    end in
+  let '(ns', out) := fold_left step (bc_calls b) (c_nodes c, []) in
+  Z.of_nat (length (bc_calls b)) :: out ++ [-112] ++ eList (fun kv => eNode (snd kv)) (sort_kv (map_to_list ns')).
 
 (* ---- law 112 ---- *)
 Definition law_bind (b : bind_case) (held : list (positive * list positive)) : bool :=
@@ -75,6 +93,8 @@ Definition dBindLaw : dec (bind_case * list (positive * list positive)) :=
 (* ---- stream 4: preempt / reclaim / allocate / backfill action lists (wire format of the C04
         harness's spec; only the cluster part is read here) ---- *)
 Definition dSkip3 : dec unit := let* _ := dZ in let* _ := dZ in let* _ := dZ in ret tt.
+(* whatever follows (fault scripts of the C04 harness: not read here) *)
+Definition dRest : dec unit := fun _ => Some (tt, []).
 Definition dEvictSpec : dec (Z * list node_spec * list job_spec * list task_spec) :=
   let* e := dZ in let* ns := dList dNodeSpec in let* _ := dList dQueueSpec in let* js := dList dCycleJob in
   let* ts := dList dTaskSpec in
@@ -83,6 +103,7 @@ Definition dEvictSpec : dec (Z * list node_spec * list job_spec * list task_spec
   let* _ := dList (dPair dZ dZ) in          (* queue: reclaimable *)
   let* _ := dList (dList dSkip3) in         (* tiers *)
   let* _ := dList dZ in                     (* actions *)
+  let* _ := dRest in
   ret (e, ns, js, ts).
 
 (* the session the actions start from: its node ledgers *)
